@@ -42,7 +42,10 @@ MANIFEST = {
     "technique": "runtime monitoring with fault injection: per-call accept/reject log + independent decode of the produced bytes",
 }
 
-CAUSES = ["unsupported-term", "typed-literal-datatypes-disabled", "tuple-too-short", "unencodable-string"]
+FRESH = "http://ex.org/fresh#"       # namespace of the unencodable IRIs: its prefix entry is new when the fault strikes
+
+CAUSES = ["unsupported-term", "typed-literal-datatypes-disabled", "tuple-too-short", "unencodable-string",
+          "bad-namespace-declaration"]
 
 
 def plan(tier: str) -> dict:
@@ -71,7 +74,9 @@ def to_native(integ: str, st: tuple, fault):
         bad = conv(("lit", "1", None, "http://ex.org/dt/x"))
     else:
         if integ == "generic":
-            bad = conv(("iri", "http://ex.org/ns/bad\ud800")) if nested != "lit" else conv(("lit", "\ud800", None, None))
+            bad = conv(("iri", FRESH + "bad\ud800")) if nested != "lit" else conv(("lit", "\ud800", None, None))
+        elif idx == 3:
+            bad = conv(("iri", FRESH + "bad\ud800"))        # graph name: an IRI whose NAME part cannot be encoded
         else:
             bad = conv(("lit", "x\ud800", None, None))
     if nested == "quoted" and integ == "generic":
@@ -158,7 +163,7 @@ def drive(integ: str, cfg: dict, stmts: list, fault_at: int, fault, ns_after=Non
                 accepted.append(("ns", ns_after[0], ns_after[1]))
                 outcomes.append(("ok", "ns"))
             except Exception as e:  # noqa: BLE001
-                outcomes.append(("raised", type(e).__name__))
+                outcomes.append(("raised-ns", type(e).__name__))
         i += 1
     try:
         got(stream.flow.to_stream_frame())
@@ -179,13 +184,23 @@ def judge(integ: str, cfg: dict, stmts: list, fault_at: int, fault, ns_after=Non
     out = run["outcomes"]
     info = {"rejected": out[fault_at][0] == "raised" if fault_at < len(out) else False,
             "later_calls": len(out) - fault_at - 1}
-    if fault_at < len(out) and out[fault_at][0] == "ok":
+    if fault is not None and fault_at < len(out) and out[fault_at][0] == "ok":
         info["fault-accepted"] = True       # e.g. the encoder simply accepted it: nothing to judge
         return None, info
     if fault_at < len(out) and out[fault_at][0] == "harness":
         info["harness"] = True
         return None, info
-    later = [o for o in out[fault_at + 1:] if o[0] in ("ok", "raised")]
+    if fault is None:
+        # the fault is the namespace declaration itself (a namespace IRI that cannot be encoded), made after statement fault_at
+        k = next((j for j, o in enumerate(out) if o[0] == "raised-ns"), None)
+        info["rejected"] = k is not None
+        if k is None:
+            info["fault-accepted"] = True
+            return None, info
+        fault = (0, None, "bad-namespace-declaration")
+        later = [o for o in out[k + 1:] if o[0] in ("ok", "raised")]
+    else:
+        later = [o for o in out[fault_at + 1:] if o[0] in ("ok", "raised")]
     refused = bool(later) and all(o[0] == "raised" for o in later)
     info["refused"] = refused
     accepted_events = [x if x and x[0] == "ns" else ("stmt", T.norm_stmt(x)) for x in run["accepted"]]
@@ -246,6 +261,8 @@ def fault_sites(integ: str, phys: int, st: tuple, datatypes_disabled: bool):
                 yield (idx, "quoted", "typed-literal-datatypes-disabled")
         if idx < 3 and (integ == "generic" or idx == 2):
             yield (idx, "lit" if idx == 2 else None, "unencodable-string")
+        if idx == 3:
+            yield (idx, None, "unencodable-string")
     yield (arity - 1, None, "tuple-too-short")
 
 
@@ -279,22 +296,35 @@ def run_case(ctx, rng):
         seq = list(stmts)
         if pos + 1 < n:
             seq[pos + 1] = stmts[pos]
-        for fault in fault_sites(integ, phys, stmts[pos], dt_disabled):
+        sites = list(fault_sites(integ, phys, stmts[pos], dt_disabled)) + [None]
+        for fault in sites:
             ns_after = None
-            if rng.random() < .2:
+            if fault is None:
+                # no bad statement: the caller declares a namespace whose IRI cannot be encoded (prefix part new, name part bad)
+                ns_after = ("nsbad", FRESH + "x\ud800")
+            elif rng.random() < .2:
                 # the caller goes on to declare a namespace that shares prefix/name with an IRI of the rejected statement
                 iris = [t[1] for top in stmts[pos] for t in T.iter_terms(top) if t[0] == "iri"]
                 if iris:
                     ns_after = ("nsx", rng.choice(iris))
+            seq_all = seq
+            if pos + 1 < n and (fault is None or (fault[2] == "unencodable-string" and fault[1] != "lit")):
+                # the next statement re-uses the namespace the unencodable IRI introduced
+                nxt = list(seq[pos + 1])
+                nxt[0] = ("iri", FRESH + "a")
+                seq = seq[:pos + 1] + [tuple(nxt)] + seq[pos + 2:]
             cfg_run = dict(cfg, ns=True) if ns_after else cfg
             via = rng.choice(["direct", "direct", "enroll-each", "stream-frames-each"])
             if via == "stream-frames-each" and (phys == 3 or ns_after):
                 via = "enroll-each"
+            seq_run, seq = seq, seq_all
             try:
-                w, info = judge(integ, cfg_run, seq, pos, fault, ns_after, via)
+                w, info = judge(integ, cfg_run, seq_run, pos, fault, ns_after, via)
             except Exception as e:  # noqa: BLE001
                 ctx.inconc(f"harness error in C20 judge: {type(e).__name__}: {e}")
                 continue
+            if fault is None:
+                fault = (0, None, "bad-namespace-declaration")
             ctx.observe("runs")
             if info.get("fault-accepted"):
                 ctx.observe(f"fault-accepted:{fault[2]}")
@@ -307,19 +337,19 @@ def run_case(ctx, rng):
             ctx.observe(f"continued-via:{via}")
             ctx.observe(f"slot:{'spog'[fault[0]]}{'/quoted' if fault[1] == 'quoted' else ''}")
             partial = fault[0] > 0 or fault[1] == "quoted" or fault[2] == "tuple-too-short" or \
-                (fault[2] == "unencodable-string")
+                (fault[2] in ("unencodable-string", "bad-namespace-declaration"))
             if partial:
                 ctx.observe("rejections-after-partial-encoding")
             if info["later_calls"]:
                 ctx.observe("continued-after-rejection-or-refused")
                 ctx.observe("stream-refused-further-use" if info.get("refused") else "stream-continued")
             if w is not None:
-                w.update({"integration": integ, "cfg": cfg_run, "stmts": T.to_json(seq), "fault_at": pos,
+                w.update({"integration": integ, "cfg": cfg_run, "stmts": T.to_json(seq_run), "fault_at": pos,
                           "fault": list(fault), "partial": partial, "ns_after": list(ns_after) if ns_after else None, "via": via})
                 if ns_after:
                     ctx.observe("violations-with-namespace-declaration-after-rejection")
                 ctx.violation(w)
-            ctx.case((integ, sorted(cfg.items()), seq, pos, fault, via), partial,
+            ctx.case((integ, sorted(cfg.items()), seq_run, pos, fault, via), partial,
                      sample={"integration": integ, "physical": phys, "cause": fault[2], "slot": "spog"[fault[0]],
                              "nested": fault[1], "position": pos, "statements": n, "refused": info.get("refused")})
 
@@ -344,7 +374,7 @@ def replay(w: dict):
     cfg["preset"] = tuple(cfg["preset"])
     stmts = list(T.from_json(w["stmts"]))
     f = w["fault"]
-    r, _info = judge(w["integration"], cfg, stmts, w["fault_at"], (f[0], f[1], f[2]),
+    r, _info = judge(w["integration"], cfg, stmts, w["fault_at"], None if f[2] == "bad-namespace-declaration" else (f[0], f[1], f[2]),
                      tuple(w["ns_after"]) if w.get("ns_after") else None, w.get("via", "direct"))
     return r
 
